@@ -49,6 +49,7 @@ def cases(draw, tier="quick"):
         slow = draw(st.integers(0, 1))
         P["w_c2s"] = [1 if slow == 0 else 10, 1 if slow == 1 else 10]      # commands of one client pile up in flight
     n = draw(st.integers(0, 260))
+    P["closing_drops"] = draw(st.booleans())   # graceful server closes pass through the WebSocket CLOSING state
     P["tape"] = draw(st.binary(min_size=n, max_size=n))
     return P
 
